@@ -784,6 +784,7 @@ def r6_copy_on_transfer(ctx):
     ctx.rule(R, "transfer by copy at worker boundaries: every Value leaving a worker in an Event passes extract_heap_data; every executor entry "
                 "that stores a foreign value passes inject_heap_data before its insert")
     F = ctx.facts
+    distinct_blobs(ctx, R)
     W = "quiver_environment::worker::Worker"
     ha = F.body(W + "::handle_action")
     fl = Flow(ha, through_named=True)
@@ -872,6 +873,41 @@ def r6_copy_on_transfer(ctx):
                       "spawn_process injects the accompanying heap vector %d time(s)%s: every injection allocates ALL its blobs again (unreferenced copies "
                       "are never retained, hence never reclaimed) and values numbered in one space are remapped through different tables" % (
                           len(injs), " in a loop" if injs and any(b.reaches(b.succ[i][0], i) for i in injs) else ""), b.loc(injs[0]) if injs else b.loc(0))
+
+
+def distinct_blobs(ctx, R):
+    """every heap blob travels ONCE per message: the indices whose blobs are copied into the accompanying heap vector are distinct (gathered in a set,
+    or de-duplicated) — the receiver allocates one slot per blob it is handed and retains only the slots the remapped values point at, so a blob
+    shipped twice leaves an unreferenced slot at count 0 that no release ever queues for reclamation (one dead slot per message: unbounded heap)"""
+    F = ctx.facts
+    n = 0
+    TCX = ("Iterator::next", "slice::iter", "Deref::deref", "IntoIterator::into_iter", "Iterator::collect", "Iterator::copied", "Iterator::cloned", "Vec::iter",
+           "Iterator::enumerate", "HashSet::into_iter", "HashSet::iter", "BTreeSet::into_iter", "BTreeSet::iter", "FromIterator::from_iter", "Iterator::map", "Clone::clone")
+    for key in (EXEC + "::extract_heap_data_many", EXEC + "::extract_heap_data"):
+        if key not in F.fns or not F.fns[key].get("mir"):
+            continue
+        b = F.body(key)
+        fl = Flow(b, through_named=True)
+        fl0 = Flow(b)
+        for bi, t in b.calls():
+            c = t.get("callee") or ""
+            if c.split("::")[-1] != "get" or len(t["args"]) < 2:
+                continue
+            rc = fl0.canon_op(t["args"][0]) or fl.canon_op(t["args"][0])
+            if not rc or not fl0.mentions_field(rc, "executor::Executor", "heap"):
+                continue
+            ip = op_place(t["args"][1])
+            if not ip:
+                continue
+            n += 1
+            back = fl.backward({ip["l"]}, through_calls=TCX)
+            is_set = any(any(x in (b.local_ty(l) or "") for x in ("HashSet<", "BTreeSet<", "hash::set::", "btree::set::")) for l in back)
+            dedup = any((t2.get("callee") or "").split("::")[-1] in ("dedup", "dedup_by", "dedup_by_key") and t2["args"] and
+                        ((fl0.canon_op(t2["args"][0]) or fl.canon_op(t2["args"][0]) or (None,))[0] in back) for _b2, t2 in b.calls())
+            ctx.check(is_set or dedup, R, key + "|distinct-blobs", "the indices whose blobs are shipped come from a set (or are de-duplicated)",
+                      "the heap indices whose blobs are copied out are gathered without de-duplication: a value that references one binary twice ships the blob "
+                      "twice, and the receiver's surplus slot (count 0, unreferenced) is never reclaimed", b.loc(bi))
+    ctx.floor(R, "heap lookups in the extraction functions", n, 1)
 
 
 def r7_process_returns_to_table(ctx):
